@@ -5,7 +5,7 @@ import importlib
 from types import SimpleNamespace
 
 from pyvc import values as V
-from pyvc.unit import Unit, U, Bytes, Flag, register
+from pyvc.unit import Unit, U, Bytes, Buf, Flag, register
 from spec import sense_spec as S
 from spec import t10_opcodes as T
 from spec.stubs import sgio as stub_sgio, iscsi as stub_iscsi
@@ -90,6 +90,26 @@ class FakeOS:
         return getattr(_os, name)
 
 
+PRIORS = ("none", "good", "cc", "cc-raw")
+PRIOR_SENSE = bytes([0x70, 0, 0x06, 0, 0, 0, 0, 10, 0, 0, 0, 0, 0x29, 0x00, 0, 0, 0, 0])  # UNIT ATTENTION, 29h/00h
+
+
+def run_prior(X, case, w, dev, cmd):
+    """the earlier use of the same command object; returns what it left attached as raw sense"""
+    prior = case.get("prior", "none")
+    if prior != "none":
+        w.status = 0x00 if prior == "good" else 0x02
+        w.sense = PRIOR_SENSE
+        try:
+            X.call(dev.execute, cmd, en_raw_sense=(prior == "cc-raw"))
+        except V.EngineSignal:
+            raise
+        except Exception:
+            pass
+        del w.trace[:]
+    return cmd.raw_sense_data
+
+
 def make_command():
     """a fresh real command (INQUIRY, 96 bytes data-in) as the object handed to execute()"""
     from pyscsi.pyscsi.scsi_cdb_inquiry import Inquiry
@@ -123,7 +143,11 @@ class SgioExecuteStatus(_DeviceUnit):
 
     def cases(self, tier):
         lens = (18, 8) if tier == "quick" else (18, 8, 14, 32, 252)
-        return [{"raw": r, "senselen": n} for r in (False, True) for n in lens]
+        cs = [{"raw": r, "senselen": n, "prior": "none"} for r in (False, True) for n in lens]
+        # "at any position in any sequence of commands": the same command object (and device) was used before --
+        # it completed GOOD, or failed with CHECK CONDITION with / without raw sense capture
+        cs += [{"raw": r, "senselen": 18, "prior": p} for r in (False, True) for p in PRIORS if p != "none"]
+        return cs
 
     def inputs(self, case):
         return {"status": U(8), "sense": Bytes(case["senselen"], mutable=False)}
@@ -137,14 +161,15 @@ class SgioExecuteStatus(_DeviceUnit):
         w = World()
         w.present[PATH] = True
         w.inode[PATH] = 11
-        w.status = a.status
-        w.sense = a.sense
         self.world = w
         with world_installed(w):
             dev = X.call(devmod().SCSIDevice, PATH, False, False)
             cmd = make_command()
             self.cmd = cmd
             self.dev = dev
+            self.pre_raw = run_prior(X, case, w, dev, cmd)
+            w.status = a.status
+            w.sense = a.sense
             return X.call(dev.execute, cmd, en_raw_sense=case["raw"])
 
     def ensures(self, case, a, out, X):
@@ -175,7 +200,7 @@ def status_clauses(unit, case, a, out, named_errors):
             # with raw sense explicitly requested a CHECK CONDITION may be reported through cmd.raw_sense_data
             attached = cmd.raw_sense_data is a.sense
             yield "C07", "normal-return-only-if-GOOD (or raw sense attached on CHECK CONDITION)", V.bor(good, V.band(cc, attached))
-            yield "C07", "no-sense-attached-when-GOOD", V.bor(V.bnot(good), cmd.raw_sense_data is None)
+            yield "C07", "no-sense-attached-when-GOOD", V.bor(V.bnot(good), cmd.raw_sense_data is unit.pre_raw)
         else:
             yield "C07", "normal-return-only-if-GOOD", good
         return
@@ -193,7 +218,7 @@ def status_clauses(unit, case, a, out, named_errors):
         if case["raw"]:
             yield "C07", "raw-sense-is-the-unmodified-buffer", cmd.raw_sense_data is a.sense
         else:
-            yield "C07", "raw-sense-only-on-request", cmd.raw_sense_data is None
+            yield "C07", "raw-sense-only-on-request (this call attaches nothing)", cmd.raw_sense_data is unit.pre_raw
     else:
         # CHECK CONDITION must surface as CheckCondition (raw capture may replace it only by a normal return)
         yield "C07", "CHECK-CONDITION-raises-CheckCondition (got %s)" % type(exc).__name__, V.bnot(cc)
@@ -230,7 +255,7 @@ class IscsiExecuteStatus(_DeviceUnit):
         cs = SgioExecuteStatus.cases(self, tier)
         # the target / binding may also offer no sense at all, or an empty buffer (the code tolerates a missing
         # raw_sense attribute): such a command must still not look successful
-        cs += [{"raw": r, "senselen": n} for r in (False, True) for n in (0, -1)]
+        cs += [{"raw": r, "senselen": n, "prior": "none"} for r in (False, True) for n in (0, -1)]
         return cs
 
     def inputs(self, case):
@@ -245,16 +270,17 @@ class IscsiExecuteStatus(_DeviceUnit):
 
     def run(self, X, case, a):
         w = World()
-        w.status = a.status
         if case["senselen"] <= 0:
             a["sense"] = None if case["senselen"] < 0 else bytes()
-        w.sense = a.sense
         self.world = w
         with world_installed(w):
             dev = X.call(iscsimod().ISCSIDevice, URL, "iqn.2000-01.test:initiator")
             cmd = make_command()
             self.cmd = cmd
             self.dev = dev
+            self.pre_raw = run_prior(X, case, w, dev, cmd)
+            w.status = a.status
+            w.sense = a.sense
             return X.call(dev.execute, cmd, en_raw_sense=case["raw"])
 
     def ensures(self, case, a, out, X):
@@ -271,12 +297,84 @@ class IscsiExecuteStatus(_DeviceUnit):
             yield "canary:returns-only-for-BUSY", a.status == 0x08
 
 
+
+# ------------------------------------------------------------------------------------------------ C03, transport side
+
+
+class TransportTransfer(_DeviceUnit):
+    """what execute() hands to the binding for a command with data-in / data-out buffers of ANY length: the very
+    cdb and buffer objects of the command and, on iSCSI, the direction and exactly the buffer's length"""
+
+    name = "device/execute:transfer"
+    properties = ("C03", "C12")
+
+    def functions(self):
+        return [devmod().SCSIDevice.execute, iscsimod().ISCSIDevice.execute]
+
+    def cases(self, tier):
+        top = 9 if tier == "quick" else 40
+        cs = [{"transport": t, "phase": ph, "len": "any"} for t in ("sgio", "iscsi") for ph in ("in", "out", "none")]
+        cs += [{"transport": "iscsi", "phase": ph, "len": n} for ph in ("in", "out") for n in range(1, top)]
+        return cs
+
+    def inputs(self, case):
+        if case["phase"] == "none":
+            return {}
+        if case["len"] == "any":
+            return {"data": Buf(maxlen=1 << 32)}
+        return {"data": Bytes(case["len"])}
+
+    def run(self, X, case, a):
+        w = World()
+        w.present[PATH] = True
+        w.inode[PATH] = 3
+        self.world = w
+        empty = bytearray(0)
+        cmd = SimpleNamespace(cdb=bytearray(10), datain=a.data if case["phase"] == "in" else empty, dataout=a.data if case["phase"] == "out" else empty,
+                              sense=None, raw_sense_data=None)
+        self.cmd = cmd
+        with world_installed(w):
+            dev = X.call(devmod().SCSIDevice, PATH, True, False) if case["transport"] == "sgio" else X.call(iscsimod().ISCSIDevice, URL, "iqn.2000-01.test:i")
+            del w.trace[:]
+            return X.call(dev.execute, cmd)
+
+    def ensures(self, case, a, out, X):
+        if out.kind != "return":
+            yield "C03", "execute-returns-for-GOOD (%s)" % out.describe()[:60], False
+            return
+        w, cmd = self.world, self.cmd
+        sent = [t for t in w.trace if t[0] in ("sgio.execute", "iscsi.command")]
+        yield "C03", "binding-receives-exactly-one-command", len(sent) == 1
+        if len(sent) != 1:
+            return
+        if sent[0][0] == "sgio.execute":
+            _, _, cdb, dout, din, _ = sent[0]
+        else:
+            _, _, _, task, dout, din = sent[0]
+            cdb = task.cdb
+        yield "C03", "binding-receives-the-commands-own-cdb-and-buffers", cdb is cmd.cdb and dout is cmd.dataout and din is cmd.datain
+        if case["transport"] == "iscsi":
+            tasks = w.events("iscsi.Task")
+            yield "C03", "one-task", len(tasks) == 1
+            if len(tasks) == 1:
+                _, task, tcdb, direction, xferlen = tasks[0]
+                nout, nin = V.buf_len(cmd.dataout), V.buf_len(cmd.datain)
+                yield "C03", "iscsi-direction-matches-the-non-empty-buffer", direction == V.ite(nout != 0, 2, V.ite(nin != 0, 1, 0))
+                yield "C03", "iscsi-transfer-length-is-exactly-the-buffer-length", xferlen == V.ite(nout != 0, nout, nin)
+
+
 # ------------------------------------------------------------------------------------------------ C15
 
 
+def _closed(h):
+    """no usable handle: none at all, or a closed one"""
+    return h is None or bool(getattr(h, "closed", False))
+
+
 class SgioReplug(_DeviceUnit):
-    """one execute() from an arbitrary state satisfying the representation invariant, after an arbitrary
-    environment step (node kept / replaced / removed), with close() possibly failing"""
+    """a history of execute() calls, each after an arbitrary environment step (node kept / replaced / removed /
+    back again), with close() and the re-open possibly failing at every step; detection on and off, read-only and
+    read-write.  Every value of the environment is symbolic, the number of steps is the bound."""
 
     name = "device/SCSIDevice.execute:replug"
     properties = ("C15",)
@@ -286,10 +384,25 @@ class SgioReplug(_DeviceUnit):
         return [D.execute, D._is_replugged, D.open, D.close, D.__init__, devmod().get_inode]
 
     def cases(self, tier):
-        return [{"detect": d, "readwrite": rw} for d in (True, False) for rw in (False, True)]
+        steps = 2 if tier == "quick" else 3
+        cs = [{"detect": d, "readwrite": rw, "steps": k} for d in (True, False) for rw in (False, True) for k in range(1, steps + 1)]
+        # the inductive step (any history length): one execute() from an ARBITRARY state satisfying the representation
+        # invariant INV = (current handle open and opened on the recorded inode) or (current handle closed, by a failed
+        # re-open; recorded inode arbitrary).  __init__ establishes INV (init clauses), every step re-establishes it
+        # (invariant clause), so the per-step clauses hold at every position of every history.
+        cs += [{"detect": d, "readwrite": rw, "steps": 1, "from": "invariant"} for d in (True, False) for rw in (False, True)]
+        return cs
+
+    def case_id(self, case):
+        return "detect=%s,readwrite=%s,steps=%s%s" % (case["detect"], case["readwrite"], case["steps"], ",from-any-state-satisfying-the-invariant" if case.get("from") else "")
 
     def inputs(self, case):
-        return {"ino0": U(32), "ino1": U(32), "present": Flag(), "close_fails": Flag(), "status": U(8)}
+        d = {"ino0": U(32), "status": U(8)}
+        if case.get("from"):
+            d.update({"pre_closed": Flag(), "rec": U(32)})
+        for i in range(1, case["steps"] + 1):
+            d.update({"ino%d" % i: U(32), "present%d" % i: Flag(), "close_fails%d" % i: Flag(), "open_fails%d" % i: Flag()})
+        return d
 
     def run(self, X, case, a):
         w = World()
@@ -303,65 +416,96 @@ class SgioReplug(_DeviceUnit):
             self.h0 = dev._file
             self.open_trace = list(w.trace)
             del w.trace[:]
-            # ---- environment step
-            w.present[PATH] = a.present
-            w.inode[PATH] = a.ino1
-            w.close_failure = a.close_fails
-            w.status = a.status
-            cmd = make_command()
-            return X.call(dev.execute, cmd)
+            self.steps = []
+            if case.get("from") and case["detect"]:
+                # an arbitrary state satisfying INV (detection off: the handle of __init__ is never replaced or closed)
+                h0 = dev._file
+                if a.pre_closed:
+                    h0.closed = True
+                    h0.close_calls = 1
+                    dev._ino = a.rec
+            for i in range(1, case["steps"] + 1):
+                # ---- environment step
+                w.present[PATH] = a["present%d" % i]
+                w.inode[PATH] = a["ino%d" % i]
+                w.close_failure = a["close_fails%d" % i]
+                w.open_failure = a["open_fails%d" % i]
+                w.status = a.status if i == case["steps"] else 0
+                pre = dev._file
+                pre_closed = _closed(pre)
+                mark = len(w.trace)
+                cmd = make_command()
+                try:
+                    X.call(dev.execute, cmd)
+                    res = "return"
+                except V.EngineSignal:
+                    raise
+                except Exception as ex:
+                    res = ex
+                self.steps.append(dict(i=i, pre=pre, pre_closed=pre_closed, events=w.trace[mark:], res=res, cur=dev._file, cur_closed=_closed(dev._file), rec=dev._ino))
+            return None
 
     def ensures(self, case, a, out, X):
         w, dev, h0 = self.world, self.dev, self.h0
+        if out.kind != "return":
+            yield "C15", "history-completes (%s)" % out.describe()[:80], False
+            return
         # --- the open performed by __init__
         opens = [t for t in self.open_trace if t[0] == "open"]
         yield "C15", "init:one-open", len(opens) == 1
         if len(opens) == 1:
             yield "C15", "init:opened-on-the-requested-path", opens[0][1] == PATH
             yield "C15", "init:mode-w+b-iff-readwrite", opens[0][2] == ("w+b" if case["readwrite"] else "rb")
-        execs = w.events("sgio.execute")
-        closes = w.events("close")
-        reopens = w.events("open")
-        replaced = a.ino1 != a.ino0
-        yield "C15", "at-most-one-command-sent", len(execs) <= 1
-        if case["detect"]:
+        for st in self.steps:
+            i, ev, pre = st["i"], st["events"], st["pre"]
+            p = "step%d:" % i
+            present, ino = a["present%d" % i], a["ino%d" % i]
+            close_fails, open_fails = a["close_fails%d" % i], a["open_fails%d" % i]
+            execs = [t for t in ev if t[0] == "sgio.execute"]
+            closes = [t for t in ev if t[0] == "close"]
+            reopens = [t for t in ev if t[0] == "open"]
+            raised = st["res"] != "return"
+            yield "C15", p + "at-most-one-command-sent", len(execs) <= 1
+            if not case["detect"]:
+                yield "C15", p + "detection-off:same-handle", len(execs) == 1 and execs[0][1] is h0
+                yield "C15", p + "detection-off:no-reopen", not reopens and not closes
+                continue
+            # the handle the device holds must be replaced iff it is not an open handle on the node now at the path
+            needs_fresh = True if st["pre_closed"] else (pre.ino != ino)
             if execs:
                 h = execs[0][1]
-                yield "C15", "command-goes-through-a-handle-on-the-current-node", V.band(a.present, h.ino == a.ino1)
-                yield "C15", "handle-used-is-open", h.close_calls == 0
-                yield "C15", "handle-used-is-the-devices-current-handle", h is dev._file
-                if h is not h0:
-                    yield "C15", "stale-handle-closed-before-the-command", h0.close_calls == 1 and w.trace.index(closes[0]) < w.trace.index(execs[0])
-                    yield "C15", "fresh-handle-opened-before-the-command", len(reopens) == 1 and w.trace.index(reopens[0]) < w.trace.index(execs[0])
-                    yield "C15", "reopen-keeps-mode", reopens[0][2] == ("w+b" if case["readwrite"] else "rb")
+                yield "C15", p + "command-goes-through-a-handle-on-the-current-node", V.band(present, h.ino == ino)
+                yield "C15", p + "handle-used-is-the-devices-current-handle", h is st["cur"]
+                if h is not pre:
+                    yield "C15", p + "stale-handle-closed-before-the-command", pre is None or pre.close_calls == 1 and (st["pre_closed"] or (len(closes) >= 1 and ev.index(closes[0]) < ev.index(execs[0])))
+                    yield "C15", p + "fresh-handle-opened-before-the-command", len(reopens) == 1 and ev.index(reopens[0]) < ev.index(execs[0])
+                    yield "C15", p + "reopen-keeps-mode", reopens[0][2] == ("w+b" if case["readwrite"] else "rb") if reopens else False
                 else:
-                    yield "C15", "original-handle-kept-only-if-node-unchanged", V.bnot(replaced)
+                    yield "C15", p + "original-handle-kept-only-if-it-is-on-the-current-node", V.bnot(needs_fresh)
             else:
-                yield "C15", "no-command-only-if-node-vanished-or-close-failed", V.bor(V.bnot(a.present), V.band(replaced, a.close_fails))
-                yield "C15", "error-reported-when-nothing-was-sent", out.kind == "raise"
+                yield "C15", p + "no-command-only-if-node-vanished-or-closing/re-opening-failed", V.bor(V.bnot(present), V.band(needs_fresh, V.bor(close_fails if not st["pre_closed"] else False, open_fails)))
+                yield "C15", p + "error-reported-when-nothing-was-sent", raised
             # vanished node: reported as an error, never silently using the old handle
-            yield "C15", "vanished-node-is-an-error", V.bor(a.present, out.kind == "raise" and not execs)
+            yield "C15", p + "vanished-node-is-an-error", V.bor(present, raised and not execs)
             # replaced node and close failure: the fresh handle is nevertheless installed
-            if out.kind == "raise" and not execs:
-                yield "C15", "after-close-failure-a-fresh-handle-is-installed", V.bor(V.bnot(V.band(a.present, replaced, a.close_fails)),
-                                                                                      dev._file is not h0 and dev._file.close_calls == 0)
-        else:
-            yield "C15", "detection-off:same-handle", len(execs) == 1 and execs[0][1] is h0
-            yield "C15", "detection-off:no-reopen", not reopens and not closes
-        # representation invariant on exit: the current handle was opened on the recorded inode; every superseded
-        # handle is closed exactly once
+            if raised and not execs and not st["pre_closed"]:
+                yield "C15", p + "after-close-failure-a-fresh-handle-is-installed", V.bor(V.bnot(V.band(present, needs_fresh, close_fails, V.bnot(open_fails))),
+                                                                                         st["cur"] is not pre and not st["cur_closed"])
+            # representation invariant after every step: an open current handle was opened on the recorded inode
+            if not st["cur_closed"]:
+                yield "C15", p + "invariant:recorded-inode-is-the-open-handles", st["cur"].ino == st["rec"]
         cur = dev._file
-        yield "C15", "invariant:recorded-inode-is-the-handles", cur.ino == dev._ino
         for h in w.handles:
             if h is not cur:
-                yield "C15", "invariant:superseded-handle-closed-once", h.close_calls == 1
+                yield "C15", "invariant:superseded-handle-released-exactly-once", h.close_calls == 1
             else:
-                yield "C15", "invariant:current-handle-open", h.close_calls == 0
+                yield "C15", "invariant:current-handle-released-at-most-once", h.close_calls == (1 if h.closed else 0)
 
     def canaries(self, case, a, out, X):
-        execs = self.world.events("sgio.execute")
-        if case["detect"] and execs and execs[0][1] is not self.h0:
-            yield "canary:reopened-although-node-unchanged", a.ino1 == a.ino0
+        for st in getattr(self, "steps", []):
+            execs = [t for t in st["events"] if t[0] == "sgio.execute"]
+            if case["detect"] and execs and execs[0][1] is not st["pre"] and not st["pre_closed"]:
+                yield "canary:reopened-although-node-unchanged", a["ino%d" % st["i"]] == st["pre"].ino
 
 
 class SgioRelease(_DeviceUnit):
@@ -452,6 +596,7 @@ class IscsiRelease(_DeviceUnit):
 
 register(SgioExecuteStatus())
 register(IscsiExecuteStatus())
+register(TransportTransfer())
 register(SgioReplug())
 register(SgioRelease())
 register(IscsiRelease())
